@@ -82,8 +82,8 @@ Definition mismatch (c : case) : bool :=
   let key := c_key c in let pad := c_pad c in
   (* (a) EncryptSecrets *)
   match m_encrypt_doc key pad (c_in c), c_enc c with
-  | ROk y, EOk t _ => negb (codec_unsafe y) && negb (ynode_eqb (content y) (content t))
-  | ROk y, EBad => negb (codec_unsafe y)
+  | ROk y, EOk t _ => negb (codec_tolerated y) && negb (ynode_eqb (content y) (content t))
+  | ROk y, EBad => negb (codec_tolerated y)
   | RErr e, EErr e' => negb (err_eqb e e')
   | _, _ => true
   end
@@ -91,12 +91,12 @@ Definition mismatch (c : case) : bool :=
   || match c_enc c, c_dec c with
      | EOk t _, DcOk d =>
          match m_decrypt_doc key pad t with
-         | ROk y => negb (codec_unsafe y) && negb (ynode_eqb (content y) (content d))
+         | ROk y => negb (codec_tolerated y) && negb (ynode_eqb (content y) (content d))
          | RErr _ => true
          end
      | EOk t _, DcErr e =>
          match m_decrypt_doc key pad t with RErr e' => negb (err_eqb e e') | ROk _ => true end
-     | EOk t _, DcBad => match m_decrypt_doc key pad t with ROk y => negb (codec_unsafe y) | RErr _ => true end
+     | EOk t _, DcBad => match m_decrypt_doc key pad t with ROk y => negb (codec_tolerated y) | RErr _ => true end
      | EOk _ _, DcNone => true
      | _, _ => false
      end
@@ -212,8 +212,8 @@ Definition known_dollar (c : case) : bool :=
 (* known finding C12-blockscalar (yaml.v3 cannot write the string as a block scalar), see Model/YamlTree.v *)
 Definition known_block (c : case) : bool :=
   match m_encrypt_doc (c_key c) (c_pad c) (c_in c) with
-  | ROk y => codec_unsafe y
-            || match m_decrypt_doc (c_key c) (c_pad c) (resolved y) with ROk d => codec_unsafe d | RErr _ => false end
+  | ROk y => codec_tolerated y
+            || match m_decrypt_doc (c_key c) (c_pad c) (resolved y) with ROk d => codec_tolerated d | RErr _ => false end
   | RErr _ => false
   end.
 
